@@ -607,7 +607,7 @@ class Bus:
             out = ("value", answers[0])
             self.t_us += 7000 + T_BF
         else:
-            out = ("error", answers[0])
+            out = ("error", (sum(answers) + 0x3C) & 0xFF)     # collision: garbage bits
             self.t_us += 7000 + T_BF
         self.frames.append((self.t_us, bits, value, out))
         return out
@@ -640,7 +640,7 @@ class UnitBus:
         elif len(answers) == 1 and not garbled:
             out = ("value", answers[0])
         else:
-            out = ("error", answers[0])
+            out = ("error", (sum(answers) + 0x3C) & 0xFF)
         self.frames.append((t_us, bits, value, out))
         return out
 
@@ -712,7 +712,9 @@ def run_sequence(gen, bus, answer_faults=None, cap=5000, env=None, log=None):
             if fault == "drop" and out[0] != "silent":
                 told = ("silent",)
             elif fault == "garble" and out[0] != "silent":
-                told = ("error", out[1])
+                # a frame received with a framing error does not carry the
+                # sender's bits: whoever trusts them gets garbage
+                told = ("error", (out[1] ^ 0x5B) & 0xFF)
             elif fault == "garble" and out[0] == "silent":
                 # noise on the bus where nobody answered: a framing error
                 told = ("error", 0)
